@@ -34,10 +34,12 @@ var pinnedAPI = map[bool]map[string]bool{
 		"ObjectSlice ListSlice StringSlice BoolSlice IntSlice FloatSlice Clone Count Empty Equals Concat SubList Contains IndexOf Sort Reverse AllObjects AllLists " +
 		"AllStrings AllBools AllInts AllFloats AllNumeric ForEach ForEachValue ForEachObject ForEachList ForEachString ForEachBool ForEachInt ForEachFloat Map MapValues " +
 		"MapObjects MapLists MapStrings MapBools MapInts MapFloats Reduce ReduceStrings ReduceInts ReduceFloats Filter FilterObjects FilterLists FilterStrings FilterInts " +
-		"FilterFloats IntSum Sum IntProd Prod Avg IntMin Min IntMax Max ForEachAsync MapAsync GetTF SetTF UnsetTF TypeOfTF"),
+		"FilterFloats IntSum Sum IntProd Prod Avg IntMin Min IntMax Max ForEachAsync MapAsync GetTF SetTF UnsetTF TypeOfTF " +
+		"getVal copy serialize isEqual"), // with the unexported methods of the embedded field interface
 	false: setOf("Init Ego Set Unset Clear Get GetObject GetList GetString GetBool GetInt GetFloat TypeOf String FormatString Dict NativeDict Keys Values Clone Count " +
 		"Empty Equals Merge Pluck Contains KeyOf KeyExists ForEach ForEachValue ForEachObject ForEachList ForEachString ForEachBool ForEachInt ForEachFloat Map MapValues " +
-		"MapObjects MapLists MapStrings MapBools MapInts MapFloats ForEachAsync MapAsync GetTF SetTF UnsetTF TypeOfTF"),
+		"MapObjects MapLists MapStrings MapBools MapInts MapFloats ForEachAsync MapAsync GetTF SetTF UnsetTF TypeOfTF " +
+		"getVal copy serialize isEqual"),
 }
 
 // pinnedFuncs: the exported package-level functions of the pinned tree (vocabulary of the rules; never inlined).
